@@ -168,7 +168,8 @@ async fn run_one(sc: &Value, node: &Arc<Node>, listener: &TcpListener, sched: &A
             "alloc" => {
                 let n = node.clone();
                 let to = if times_out[(*x - 1) as usize] { Duration::from_millis(60) } else { Duration::from_secs(4) };
-                let tgt = target.to_string();
+                // callers of the scenario's "ghosts" call a node there is no connection to
+                let tgt = if sc["ghosts"].as_array().map(|g| g.iter().any(|c| c.as_i64() == Some(*x))).unwrap_or(false) { "ghost@127.0.0.1".to_string() } else { target.to_string() };
                 let a2 = actor.clone();
                 let h = tokio::spawn(ACTOR.scope(a2, async move {
                     n.rpc_call_raw_with_timeout(&tgt, "m", "f", vec![OwnedTerm::Integer(1)], to).await.map_err(|e| format!("{e:?}"))
